@@ -181,6 +181,9 @@ def configs(m):
          ("table", "footnotes"), True),
         ("ast-rst", m.create_markdown(renderer=None, plugins=["def_list", "task_lists", RSTDirective([Admonition(), Image(), Figure(), Include()])]),
          ("def_list", "task_lists"), True),
+        # every container-making plugin together with every directive style: containers inside directive bodies inside containers
+        ("ast-containers", m.create_markdown(renderer=None, plugins=["def_list", "footnotes", "spoiler", "task_lists", "table", FencedDirective([Admonition(), Figure()]),
+                                                                     RSTDirective([Admonition(), Figure()])]), ("def_list", "footnotes", "spoiler"), True),
         # custom fence characters are a separate entry point of the directive parser
         ("ast-colon", m.create_markdown(renderer=None, plugins=["table", "spoiler", FencedDirective([Admonition(), Image(), Figure()], ":")]),
          ("table", "spoiler"), True),
@@ -248,9 +251,24 @@ def oracle(ctx, extra):
                 pre = "> " * r.choice([5, 6, 6, 7])
                 fence = r.choice([":::", "::::", "```", "~~~~"])
                 # under the configuration that knows this fence style
-                name, md, plugins, directives = cfgs[5] if fence[0] == ":" else cfgs[3]
+                name, md, plugins, directives = cfgs[6] if fence[0] == ":" else cfgs[3]
                 body = [r.choice(["> inner", "- inner", "1. inner", "> - inner"]), r.choice(["text", "> more", fence[0] * (len(fence) - 1) + "x"])]
                 doc = "".join(pre + l + "\n" for l in [fence + "{note} T"] + body + [fence])
+            elif r.random() < 0.35:
+                # containers of plugins (definition descriptions, footnote texts, spoilers) inside a directive body inside 0-6
+                # quotes or list items, holding quotes and lists again: the nesting is counted from the top of the document
+                pre = "".join(r.choice(["> ", "> ", "- "]) for _ in range(r.choice([0, 1, 1, 2, 3, 5, 6])))
+                cont = pre.replace("- ", "  ")
+                j = r.randint(3, 8)
+                inner = "".join(r.choice(["> ", "> ", "- ", "1. "]) for _ in range(j)) + "deep"
+                body = r.choice(["term\n: " + inner, "[^n]: " + inner, ">! " + inner, "term\n: - " + inner, inner])
+                fence = r.choice(["```", "~~~~", ".."])
+                name, md, plugins, directives = cfgs[5]
+                if fence == "..":
+                    lines = [".. note:: T", ""] + ["   " + l for l in body.split("\n")]
+                else:
+                    lines = [fence + "{note} T"] + body.split("\n") + [fence]
+                doc = "".join((pre if i == 0 else cont) + l + "\n" for i, l in enumerate(lines))
             elif r.random() < 0.3:
                 # staircase of lone markers below it (each line a continuation of the item above)
                 mark, step = r.choice(["-", "+", "*", "1.", "=", "- x", ">"]), r.choice([2, 3])
